@@ -60,7 +60,7 @@ pub mod channel {
                     loop {
                         if let Some(x) = g.q.pop_front() { return Ok(x); }
                         if g.senders == 0 { return Err(RecvTimeoutError::Disconnected); }
-                        if clock::installed() && clock::peek_ns() >= deadline { return Err(RecvTimeoutError::Timeout); }
+                        if clock::installed() && clock::peek_ns() >= deadline { clock::note_timeout(); return Err(RecvTimeoutError::Timeout); }
                         g = i.cv.wait(g).unwrap();
                     }
                 }
